@@ -1,4 +1,4 @@
-\* negative control: with the named deviation LazyGetterUpgrades TLC must report ReadOnlyFrozen violated
+\* negative control: with the named deviation RepeatAccepted TLC must report RepeatRefused violated
 SPECIFICATION Spec
 CONSTANTS
   ReadOps = {"object.get"}
@@ -8,9 +8,9 @@ CONSTANTS
   Helpers = {"read_ui_json", "monitored_copy"}
   MaxVersion = 5
   MaxDepth = 5
-  Deviations = {"LazyGetterUpgrades"}
+  Deviations = {"RepeatAccepted"}
 CONSTRAINT DepthBound
 VIEW vw
 INVARIANT TypeOK
-PROPERTY ReadOnlyFrozen
+PROPERTY RepeatRefused
 CHECK_DEADLOCK FALSE
